@@ -93,6 +93,15 @@ CLAIMED["C18"] = ("static: evaluation of the quarter expression from its AST for
   "Trusts package time / dateparse for the calendar itself. Format round trip and bucket layouts are not decided.",
   "DESIGN.md §3 C18")
 
+CLAIMED["C20"] = ("static pairing rules per block (emitted movement vs tracked cursor step), barrier-reachability rules over go/cfg (carriage return on every path, erase on every path with ClearLine set), guard-fact rule on the escape-skipping loop, ordering rules for Close and the buffered writer, E-PANIC obligations of the trimmer",
+  "Decides the bookkeeping clauses of the live terminal: tracked cursor moves only in step with emitted movement, erase always follows the text when enabled, hide/show paired, trimming index stays within the line, buffered output printed top to bottom before closing. Does not interpret escape sequences.",
+  "Screen content after arbitrary update histories and visible-width limits need execution/interpretation of the output and are not decided; no verif hook is needed or added.",
+  "DESIGN.md §3 C20")
+CLAIMED["C15"] = ("static: constant-capacity and non-blocking-send rules on the notifier's signal channels, read-then-wait shape rule, must-pass-through rules over go/cfg for the poller's offset bookkeeping (count added after every read; seek-or-reset after re-open), timestamp-renewal-only-after-send rule on the time-flush loop",
+  "Decides structural necessary conditions of 'every appended byte delivered once': wake-up signals can neither be lost nor block the watcher, the reader always re-reads before it waits, the poller's tracked offset follows every read and every re-open, and the time flush cannot be starved by a steady trickle.",
+  "Exactly-once in-order delivery for every history and timing needs the file system, clock and scheduler; not decided.",
+  "DESIGN.md §3 C15")
+
 PENDING_REASON = "static check for this property is designed in DESIGN.md §3 but not yet built in this revision of /verif; not claimed until it runs"
 
 def main():
